@@ -28,7 +28,7 @@ CaseResult runC17(const Case &c, RunCtx &ctx) {
     try { back.reset(new ezc3d::c3d(path)); }
     catch (...) { Outcome e = classifyCurrentException();
         r.fail(std::string(within ? "content at the limit" : "content beyond a limit (" + why + ")") + " was saved without error but the file does not load: " + e.cls + ": " + e.what); return r; }
-    ContentOpts co; co.channelNames = false;
+    ContentOpts co; co.channelNames = false; co.trimA = true; co.trimB = false;   // the loaded object must hold the trimmed strings
     std::string d = diffContent(a, takeSnap(*back), co);
     if (!d.empty()) r.fail(std::string(within ? "content at the limit" : "content beyond a limit (" + why + ")") + " was saved without error but loads to something else: " + d);
     else r.tags.insert(within ? "round-trip-at-limit" : "round-trip-beyond-limit");
